@@ -33,6 +33,14 @@ CHECKS = {
    text="TLC exhaustively checks ConfigStore.tla (profile directory, config.json / config.yo / temporary file, a save decomposed into mkdir/open/write/close/rename/remove-stale, crash between any two operations, load by profile name) for all histories of up to 3 saves in both formats against SaveThenLoad, NeverFails, CrashSafe, NeverLost; each as-read switch (no mkdir, truncate in place, one file name for both formats) must violate an invariant. The graph's save histories are replayed on the real ConfigManager/StorageTools with generated configurations (random field subsets, unicode / binary values, both formats, fresh and existing profiles); before EVERY file-system operation of every save the whole config root is copied (buffers flushed and unflushed) and must load as the previous or the new configuration; plus load by path with and without extension.",
    note="Trusts TLC, the file-operation proxies installed in yowsup.common.tools / yowsup.config.manager (open, os.*, tempfile.*) and the copy-at-boundary crash model (process death, not power loss).",
    technique="TLA+ spec + TLC exhaustive model checking; behaviour replay with crash injection at every file-system operation"),
+ "C01": dict(level="model_checking", design="4/C01",
+   text="WireFormat.tla transcribes the binary-XML format (list headers, tokens incl. double-byte pages, nibble/hex packing with parity flag and filler, 8/20/31-bit lengths, JIDs) over abstract strings and referenced contents; for every enumerated abstract tree TLC computes the encoding the library is specified to choose and checks that the reference decoder returns the tree for the library's and every single-position alternative encoding. The harness concretises each tree (every dictionary word, packed strings by length/parity, text and binary content across the three length classes incl. the 1 MiB boundary and - thorough - 16 MiB, list sizes around 255, nested and top-level large nodes, seeded random trees), and requires encoder bytes == specified bytes, decoder(encoder(tree)) == tree under a strict structural comparison and under __eq__, also through YowCoderLayer; every word of the library's own dictionaries must survive the codec.",
+   note="The enumeration is a structured sweep, not all trees; lengths are covered by class boundaries. Trusts TLC's evaluation of the transcription and the item evaluator.",
+   technique="TLA+ transcription of the format evaluated by TLC (expected encoding per case + reference decoder) bound to the real codec by term interpretation"),
+ "C02": dict(level="model_checking", design="4/C02",
+   text="The TLC-evaluated transcription WireFormat.tla with the frozen dictionary WADict.tla is the independent implementation: (a) the library's bytes for every enumerated tree must equal the encoding the reference computes and decodes back to the tree; (b) every permitted alternative per position (16-bit list header, 20/31-bit lengths, literal instead of token, packed or raw, JID without user, token/packed-valued node content), all alternatives at once, and the zlib-compressed frame must be decoded by the library to the tree; (c) the 236 + 1024 dictionary entries are compared one by one with the reference and round-tripped through getToken/getIndex.",
+   note="No copy of WhatsApp's dictionary other than the repository's exists offline: the reference is a frozen transcription (detects change and index arithmetic errors, cannot certify the pinned table against the servers). Alternatives are enumerated one position at a time plus all at once.",
+   technique="TLA+ transcription evaluated by TLC as independent reference encoder/decoder + entry-by-entry dictionary comparison"),
 }
 NA_REASON = "check not built yet in this session (planned: see DESIGN.md section 4)"
 
